@@ -35,6 +35,12 @@ CHECKS.update({
         "Trusted: heartbeat_reduce of the working tree as oracle (itself checked against the hull rule by C08); SQLite.",
         "DESIGN.md 4 C07",
     ),
+    "C05": (
+        "explicit-state BFS to fixpoint over bucket lifecycle histories of the real stores (fresh and stale handles), dict model",
+        "All reachable lifecycle states of two operated buckets (3 metadata variants, update subsets, delete/re-create, one event, handles kept across deletion) plus a passive bucket are enumerated on each real backend; in every state every op incl. all 31 update subsets (thorough; 7 quick) and every op on absent ids is applied; listing, metadata, events, error types (KeyError/ValueError) and 'changes nothing' (raw tables) are compared with a dict model. Canonical form includes hidden object state (handle cache, id->key caches).",
+        "Trusted: SQLite; the dict model. Re-creating an existing id and default `name` are unspecified and not compared.",
+        "DESIGN.md 4 C05",
+    ),
 })
 
 NOT_YET = {}
